@@ -131,7 +131,7 @@ Proof.
       rewrite len_app, len1 in IH. apply IH; [cbn; rewrite Hd, <- app_assoc; reflexivity|reflexivity|reflexivity|cbn in HK; lia].
 Qed.
 
-Lemma flow_unpack_asn1_octet_number fuel data : (length data < fuel)%nat ->
+Lemma flow_unpack_asn1_octet_number fuel data : (Datatypes.length data < fuel)%nat ->
   run W fuel k_flow_unpack_asn1_octet_number [VB data] =
   (let* (i, idx) := unpack_octet_number data in Ok (VT [VI i; VI idx])).
 Proof.
